@@ -478,7 +478,7 @@ def build_gfa1(r, opts=None):
     lines.extend(paths)
     if o["comments"]:
         for _ in range(r.randint(0, 2)):
-            lines.insert(r.randint(0, len(lines)), ["#", [choice(r, [" a comment", "nospace", "  two", " with\ttab", ""])], []])
+            lines.insert(r.randint(0, len(lines)), ["#", [choice(r, [" a comment", "nospace", "  two", " with\ttab", "", " form\x0cfeed", " v\x0btab", " fs\x1c gs\x1d rs\x1e"])], []])
     if o["shuffle"] and chance(r, 0.5):
         # keep 'extra' after its original so that "first arrival wins" is well defined
         body = [l for l in lines if l not in extra]
@@ -605,6 +605,16 @@ def build_gfa2(r, opts=None):
             lines.append(["G", [gid, choice(r, segs) + choice(r, "+-"), choice(r, segs) + choice(r, "+-"),
                                 spell_int(r, r.randint(-50, 500), True),
                                 "*" if chance(r, 0.4) else str(r.randint(0, 100))], tags("G")])
+    if (o["gaps"] or o["groups"]) and fair(r, o.get("zero_len", 0.0)):
+        # a segment of length 0 (valid; an object that reports its length as len() is falsy), mentioned by a gap or a set
+        z = fresh_name()
+        if z:
+            lines.append(["S", [z, "0", "*"], []])
+            slen[z] = 0
+            if o["gaps"] and (not o["groups"] or chance(r, 0.5)):
+                lines.append(["G", ["*", z + choice(r, "+-"), choice(r, segs) + choice(r, "+-"), "5", "*"], []])
+            else:
+                lines.append(["U", ["*", z + " " + choice(r, segs)], []])
     if o["fragments"]:
         for _ in range(r.randint(0, 2)):
             s = choice(r, segs)
@@ -678,7 +688,7 @@ def build_gfa2(r, opts=None):
                 lines.append([lines[-1][0], list(fields), [list(t) for t in tg]])  # the same custom record once more
     if o["comments"]:
         for _ in range(r.randint(0, 2)):
-            lines.insert(r.randint(0, len(lines)), ["#", [choice(r, [" a comment", "nospace", "  two", ""])], []])
+            lines.insert(r.randint(0, len(lines)), ["#", [choice(r, [" a comment", "nospace", "  two", "", " form\x0cfeed", " v\x0btab", " fs\x1c gs\x1d rs\x1e"])], []])
     if o["shuffle"] and chance(r, 0.5):
         r.shuffle(lines)
     return near_names(r, {"version": "gfa2", "lines": lines, "slen": slen}, p=o.get("near_names", 0.12))
